@@ -657,3 +657,23 @@ def discrete_wrapper_threshold_forms(ctx, form, process):
             want = np.where(f < -0.2, 1.0, np.where(f < 0.9, 2.0, 5.0))
             ok = bool(np.array_equal(out, want))
     ctx.ensure("accepted-and-only-given-values(partition-at-the-thresholds)", ok)
+
+
+@contract(P, "array.array_discrete/output-takes-only-the-given-values-for-every-input-dtype",
+          params={"dtype": ["float64", "float32", "int64", "list"], "thresholds": ["arithmetic", "explicit"]},
+          functions=[SRC + "array_discrete"], bounded="native run: 6 field values, 2-3 given values")
+def discrete_dtypes(ctx, dtype, thresholds):
+    """'After this transformation, the field has only len(values) discrete values' -- the given values, exactly,
+    whatever the dtype of the field array (an integer field must not truncate them)"""
+    with symrun.native():
+        raw = [0, 1, 2, 3, -2, 5]
+        fld = raw if dtype == "list" else np.array(raw, dtype=dtype)
+        vals = [0.5, 2.5, -1.25]
+        th = "arithmetic" if thresholds == "arithmetic" else [0.5, 2.5]
+        out = np.asarray(ta.array_discrete(fld, vals, thresholds=th))
+        ok = set(np.unique(out).tolist()) <= set(float(np.array(v, dtype=np.float32 if dtype == "float32" else float)) for v in vals) \
+            and out.shape == (6,)
+        if thresholds == "explicit":
+            want = [vals[0] if x <= 0.5 else (vals[1] if x <= 2.5 else vals[2]) for x in raw]
+            ok = ok and bool(np.allclose(out, want))
+    ctx.ensure("only-the-given-values", ok)
